@@ -358,14 +358,15 @@ def binop_obligations(chk):
         def havoc(I, path, env, k):
             kk = path.fresh("k", IntS)
             a = z3.Function(f"spine_arg!{kk}", IntS, Val)
-            env.set("args", Deque(SSeq(kk, lambda i, a=a: SV(a(to_int(i))), "list")))
-            env.set("left", SV(path.fresh("left")))
+            env.set(env.find(lambda v: isinstance(v, Deque), "operand deque"), Deque(SSeq(kk, lambda i, a=a: SV(a(to_int(i))), "list")))
+            st["left_name"] = env.find(lambda v: isinstance(v, SV) and v.t.decl().name() == "binop_left", "left-spine cursor")
+            env.set(st["left_name"], SV(path.fresh("left")))
             st["k"] = kk
 
         def inv(I, path, env, k):
-            node = to_val(env.lookup("node"))
-            args = env.lookup("args").seq
-            left = to_val(env.lookup("left"))
+            node = to_val(env.lookup(env.find(lambda v: isinstance(v, SV) and z3.is_const(v.t) and v.t.decl().name().startswith("node"), "visited node (parameter)")))
+            args = env.lookup(env.find(lambda v: isinstance(v, Deque), "operand deque")).seq
+            left = to_val(env.lookup(st.get("left_name") or env.find(lambda v: isinstance(v, SV) and v.t.decl().name() == "binop_left", "left-spine cursor")))
             kk = args.length if not isinstance(args.length, int) else z3.IntVal(args.length)
             st["k_now"] = kk
             return [kk >= 1, left == anc(node, kk),
